@@ -91,7 +91,10 @@ def run(ctx):
     for b in tpv.reach_from(np2) if np2 else []:
         for st in tpv.stmts(b):
             d = st.get("d")
-            if d and mir.place_fields(d) == ["1"] and "Some(" in show(tpv.expr_rvalue(st["rv"], deep=False)):
+            if d and "Some(" in show(tpv.expr_rvalue(st["rv"], deep=False)) and (
+                    mir.place_fields(d) == ["1"] or
+                    # the same slot reached through a destructured `&mut Option<NodePtr>` binding
+                    (d["p"] == ["*"] and "Option<allocator::NodePtr>" in tpv.local_ty(d["l"]) and tpv.local_ty(d["l"]).startswith("&mut"))):
                 cached = True
     skip_cached = any(tpv.term(b)["k"] == "switch" and tpv.discr_variants(b) and set(tpv.discr_variants(b).values()) == {"None", "Some"}
                       for b in tpv.reachable_blocks())
